@@ -107,7 +107,10 @@ func runHistory(t *rapid.T, cfg PropCfg, col *Collector) {
 		for _, v := range vs {
 			fail(v)
 		}
-		if st.Res.FaultHit != "" {
+		if st.Res.FaultHit != "" && st.Op.Kind != OpBlock {
+			g.label("history:injected-fault-hit-in-a-message")
+		}
+		if st.Res.FaultHit != "" && st.Op.Kind == OpBlock {
 			g.label("history:injected-fault-hit")
 			if st.Res.OK && cfg.ReportHalt {
 				fail(viol("C07/fault-hidden", "block %s: the injected failure of transfer %s was not reported, block processing returned nil", tfmt(st.Now), st.Res.FaultHit))
@@ -226,7 +229,7 @@ func ReplayK(t *testing.T, cfg PropCfg, path string) {
 		for _, v := range vs {
 			report(v)
 		}
-		if st.Res.FaultHit != "" {
+		if st.Res.FaultHit != "" && st.Op.Kind == OpBlock {
 			if st.Res.OK && cfg.ReportHalt {
 				report(viol("C07/fault-hidden", "block %s: the injected failure of transfer %s was not reported", tfmt(st.Now), st.Res.FaultHit))
 			}
